@@ -20,6 +20,7 @@ func init() { monitors["C04"] = monC04 }
 // decoded is the neutral form both decoders' results are copied into, field by
 // field through the exported API, before comparison with the encoded description.
 type decoded struct {
+	live     interface{} // the decoder's own result, kept so that it can be read again later
 	hdr      *header.Header
 	sats     []ref.Sat
 	satIDs   []uint
@@ -29,7 +30,7 @@ type decoded struct {
 }
 
 func fromMSM4(m *msm4msg.Message) *decoded {
-	d := &decoded{hdr: m.Header}
+	d := &decoded{hdr: m.Header, live: m}
 	for i := range m.Satellites {
 		s := &m.Satellites[i]
 		d.sats = append(d.sats, ref.Sat{Whole: s.RangeWholeMillis, Frac: s.RangeFractionalMillis})
@@ -57,7 +58,7 @@ func fromMSM4(m *msm4msg.Message) *decoded {
 }
 
 func fromMSM7(m *msm7msg.Message) *decoded {
-	d := &decoded{hdr: m.Header}
+	d := &decoded{hdr: m.Header, live: m}
 	for i := range m.Satellites {
 		s := &m.Satellites[i]
 		d.sats = append(d.sats, ref.Sat{Whole: s.RangeWholeMillis, Ext: s.ExtendedInfo, Frac: s.RangeFractionalMillis, Rate: s.PhaseRangeRate})
@@ -264,22 +265,36 @@ type msmCase struct {
 	Pads []int    `json:"pads"`
 }
 
-// c04Prev keeps the previous message's description and decoded result: decoding the
-// next message must not change it.
-var c04Prev struct {
+// c04PrevByFamily keeps, per decoder family, the previous message's description and
+// decoded result: decoding the next message of that family must not change it.
+type c04Kept struct {
 	m  *ref.MSM
 	d  *decoded
 	cj []byte
 }
 
+var c04PrevByFamily [2]c04Kept // [0] MSM4, [1] MSM7
+
 func execC04(c *child.Ctx, k msmCase, cj []byte) {
 	msm7 := ref.IsMSM7(k.M.Type)
-	prev := c04Prev
+	fam := 0
+	if msm7 {
+		fam = 1
+	}
+	prev := c04PrevByFamily[fam]
 	defer func() {
 		// by now this message has been decoded several times: the previous message's
 		// decoded result must still match its encoding
 		if prev.m != nil && prev.d != nil {
-			if why := compareMSM(prev.m, prev.d); why != "" {
+			// read the decoder's own result again, now
+			again := prev.d
+			switch live := prev.d.live.(type) {
+			case *msm4msg.Message:
+				again = fromMSM4(live)
+			case *msm7msg.Message:
+				again = fromMSM7(live)
+			}
+			if why := compareMSM(prev.m, again); why != "" {
 				c.Violate("decoded-result-changed-later", "a decoded message no longer matches its encoding after the next message was decoded: "+why, prev.cj)
 			}
 			c.Count("earlier_results_rechecked", 1)
@@ -316,7 +331,7 @@ func execC04(c *child.Ctx, k msmCase, cj []byte) {
 			return
 		}
 		mm := m
-		c04Prev.m, c04Prev.d, c04Prev.cj = &mm, direct, cj
+		c04PrevByFamily[fam] = c04Kept{&mm, direct, cj}
 		c.Count("decodes_compared", 2)
 		c.Count("cells_compared", int64(2*len(m.Sigs)))
 	}
